@@ -606,7 +606,7 @@ class HammingReward(Rewards):
 
     def __call__(self, action: Sequence[Action]) -> float:
         argmax = self._argmax
-        comparable,shape = extract_shape(action,argmax[0],True)
+        comparable,shape = extract_shape(action,argmax[0] if len(argmax) else None,True)
 
         #a single label (e.g., one of the actions of a multilabel SupervisedSimulation) is a set of one
         if not isinstance(comparable,(list,tuple,set,frozenset)): comparable = [comparable]
